@@ -58,8 +58,9 @@ def run(ctx):
         "delays are exact rationals in the model, IEEE doubles in the code: compared with 1e-9 relative tolerance (+1 ns)",
         "random.normalvariate(mu, sigma) is modelled as mu + z*sigma with the draw z an input; the range theorem assumes "
         "|z| <= Zmax <= 1/jitter (8.36 sigmas); beyond that the delay is negative and reactor.callLater asserts",
-        "Tub/Deferred/reactor/RemoteReference are the environment: a fake Tub in the enumeration, validated by scenarios "
-        "with real Tubs on the in-memory network (modelled-not-verified: Twisted's Deferred and DelayedCall)",
+        "Tub/Deferred/reactor/RemoteReference are the environment: a fake Tub in the enumerations; the assumption that a lost "
+        "connection reaches _disconnected (and a finished attempt _connected/_failed) is checked on real Tub/Broker pairs on the "
+        "in-memory network with traffic of every kind in flight at the loss (modelled-not-verified: Twisted's Deferred and DelayedCall)",
         "logging, _last_failure and the informational ReconnectionInfo timestamps are not modelled (white-listed statements)",
         "'after stopConnecting returned' is judged on the order of the actual invocations (flag set when the call returns, "
         "checked inside the user callback, getReference, callLater and notifyOnDisconnect), after every operation and "
@@ -76,8 +77,12 @@ def run(ctx):
     # ---- 0. corpus (regression witnesses), direct oracle
     corpus = []
     corpus_micro = []
+    corpus_real = []
     for p in sorted(glob.glob(os.path.join(common.VERIF, "corpus", "C16", "*.json"))):
         j = json.load(open(p))
+        if "real_history" in j:
+            corpus_real.append((j["real_history"], j.get("stop_stage", "connected")))
+            continue
         if "micro_operations" in j:
             ops = [impl.micro_from_json(o) for o in j["micro_operations"]]
             groups, viol, done = impl.run_micro(ops, cb_raises=j.get("cb_raises", False))
@@ -111,6 +116,50 @@ def run(ctx):
         ctx.hist("source", "real-tub")
         if not good:
             ctx.fail(sig, "real Tub scenario %s: %s" % (name, detail), replay=dict(scenario=name))
+
+    # ---- 1b. the Reconnector on a REAL Tub/Broker pair (in-memory network): traffic of every kind in flight, at every
+    #      stage of delivery, when the connection is lost in every way; invariant evaluated on the real stack
+    real = []
+    rworst = {}
+
+    def real_case(rounds, stop_stage, src):
+        rounds = [dict(traffic=[tuple(t) for t in rd["traffic"]], loss=rd["loss"], turn_before_loss=bool(rd["turn_before_loss"]))
+                  for rd in rounds]
+        groups, viol = impl.run_real_history(rounds, stop_stage)
+        ctx.case(["real-stack", [[list(map(list, rd["traffic"])), rd["loss"], rd["turn_before_loss"]] for rd in rounds], stop_stage],
+                 nontrivial=True)
+        ctx.hist("source", src)
+        for rd in rounds:
+            ctx.hist("real_loss", rd["loss"])
+            for t in rd["traffic"]:
+                ctx.hist("real_traffic", "%s@%d" % t)
+        if viol:
+            size = sum(1 + len(rd["traffic"]) for rd in rounds)
+            if viol.sig not in rworst or size < rworst[viol.sig][0]:
+                rworst[viol.sig] = (size, viol, rounds, stop_stage)
+        else:
+            real.append(((rounds, stop_stage), groups))
+    for rounds, stop_stage in corpus_real:
+        real_case(rounds, stop_stage, "corpus")
+    for kind in impl.TRAFFIC:
+        for stage in range(4):
+            for loss in impl.LOSSES:
+                for tb in (False, True):
+                    real_case([dict(traffic=[(kind, stage)], loss=loss, turn_before_loss=tb)], "connected", "real-stack-exhaustive")
+    for loss in impl.LOSSES:
+        for ss in ("connected", "connecting"):
+            real_case([dict(traffic=[], loss=loss, turn_before_loss=False)] * 2, ss, "real-stack-exhaustive")
+    for k in range(ctx.n(150, 2000)):
+        rounds = []
+        for r_ in range(ctx.rng.randint(1, 3)):
+            tr = [(ctx.rng.choice(impl.TRAFFIC + ["partial"]), ctx.rng.randint(0, 3)) for _ in range(ctx.rng.randint(0, 4))]
+            rounds.append(dict(traffic=tr, loss=ctx.rng.choice(impl.LOSSES), turn_before_loss=ctx.rng.random() < 0.3))
+        real_case(rounds, ctx.rng.choice(["connected", "connecting"]), "real-stack-seeded")
+    for sig, (size, viol, rounds, stop_stage) in sorted(rworst.items()):
+        ctx.fail(sig, viol.what + "  [real Tub/Broker history: %s]" % impl.real_history_name(rounds, stop_stage),
+                 replay=dict(real_history=[dict(traffic=[list(t) for t in rd["traffic"]], loss=rd["loss"],
+                                                turn_before_loss=rd["turn_before_loss"]) for rd in rounds], stop_stage=stop_stage))
+    ctx.extra["real_stack_histories"] = len(real) + len(rworst)
 
     # ---- 2. exhaustive enumeration on the real object, direct oracle on every node
     depth = ctx.n(8, 11)
@@ -229,13 +278,13 @@ def run(ctx):
     if not ok:
         model_ok, _ = ctx.coq_build(["lib/Reconnector.vo"])
     if model_ok:
-        correspond(ctx, depth, nodes, corpus + longs, micro, mtree)
+        correspond(ctx, depth, nodes, corpus + longs, micro, mtree, real)
     if not ok and len(ctx.failures) == before:
         ctx.fail("proof-broken", "theorem closure props/C16.vo no longer builds against the regenerated gen/ReconnectorGen.v:\n"
                  + log[-2500:], replay=dict(log=log[-6000:]), has_input=False)
 
 
-def correspond(ctx, depth, nodes, seqs, micro=(), mtree=()):
+def correspond(ctx, depth, nodes, seqs, micro=(), mtree=(), real=()):
     """the comparison runs inside Coq (Reconnector.first_mismatch): the expected observations are written into the
     case file, the model is evaluated with vm_compute, and only the index of the first disagreement comes back"""
     from harness import c16_impl as impl
@@ -250,6 +299,12 @@ def correspond(ctx, depth, nodes, seqs, micro=(), mtree=()):
     mchunks = [micro[i:i + 300] for i in range(0, len(micro), 300)]
     for ch in mchunks:
         body += ("Eval vm_compute in map (group_mismatch 0%%Z init_state) %s.\n"
+                 % common.coq_list([common.coq_list(["(%s, %s)" % (common.coq_list([coq_event(e) for e in evs]),
+                                                                    coq_triple(pack(o))) for evs, o in groups])
+                                    for _, groups in ch]))
+    rchunks = [real[i:i + 300] for i in range(0, len(real), 300)]
+    for ch in rchunks:
+        body += ("Eval vm_compute in map (group_mismatch_state 0%%Z init_state) %s.\n"
                  % common.coq_list([common.coq_list(["(%s, %s)" % (common.coq_list([coq_event(e) for e in evs]),
                                                                     coq_triple(pack(o))) for evs, o in groups])
                                     for _, groups in ch]))
@@ -296,7 +351,18 @@ def correspond(ctx, depth, nodes, seqs, micro=(), mtree=()):
                  "the final drain): the Reconnector's entry points were invoked as %r; model %r, implementation %r"
                  % (k, " ".join(impl.micro_name(o) for o in ops), g and g[0], m, g and pack(g[1])),
                  replay=dict(micro_operations=[impl.micro_json(o) for o in ops], at=k), has_input=False)
-    for st0, (nxt, bad) in zip(starts, vals[1 + len(chunks) + len(mchunks):]):
+    base = 1 + len(chunks) + len(mchunks)
+    rflat = [t for v in vals[base:base + len(rchunks)] for t in v]
+    for ((rounds, stop_stage), groups), (k, m) in zip(real, rflat):
+        if k == -1:
+            ctx.traces += 1
+            continue
+        nbad += 1
+        g = groups[k] if k < len(groups) else None
+        ctx.fail("correspondence/real-stack", "model and implementation disagree at observation %d of the real Tub/Broker history "
+                 "[%s]: the Reconnector's entry points were invoked as %r; model %r, implementation %r"
+                 % (k, impl.real_history_name(rounds, stop_stage), g and g[0], m, g and pack(g[1])), has_input=False)
+    for st0, (nxt, bad) in zip(starts, vals[base + len(rchunks):]):
         if bad == "None":
             continue
         k, m = bad[1] if isinstance(bad, tuple) and bad[0] == "Some" else (None, None)
@@ -317,5 +383,5 @@ def correspond(ctx, depth, nodes, seqs, micro=(), mtree=()):
         ctx.fail("correspondence/trace", "model and implementation disagree at event %d of [%s]: model %r, implementation %r"
                  % (k, " ".join(e[0] for e in evs[:k + 1]), m, pack(obs[k]) if k < len(obs) else None),
                  replay=dict(events=[impl.ev_json(e) for e in evs], at=k), has_input=False)
-    ctx.extra["correspondence_cases"] = len(nodes) + len(seqs) + len(micro) + len(preorder)
+    ctx.extra["correspondence_cases"] = len(nodes) + len(seqs) + len(micro) + len(preorder) + len(real)
     ctx.extra["correspondence_disagreements"] = nbad
